@@ -648,7 +648,12 @@ class ttensor:
                     full_samples[k].dot(as_float_if_needed(self.factor_matrices[k]))
                 )
             else:
-                new_u.append(self.factor_matrices[k][full_samples[k], :])
+                factor = self.factor_matrices[k]
+                if sparse.issparse(factor):
+                    # coo matrices cannot be indexed
+                    new_u.append(factor.tocsr()[full_samples[k], :].tocoo())
+                else:
+                    new_u.append(factor[full_samples[k], :])
 
         return ttensor(self.core, new_u).full()
 
